@@ -357,6 +357,222 @@ Definition iterate (file : bytes) (t : tindex) : res (list (bytes * bytes)) :=
     iter_loop file limit sorted 0 []).
 
 (* =====================================================================
+   1b. archive files   (go/store/nbs/archive_reader.go, archive_chunk_source.go)
+   ===================================================================== *)
+
+Definition u64 : N := 18446744073709551616.
+Definition i63 : N := 9223372036854775808.
+Definition sub64 (a b : N) : N := (a + u64 - b mod u64) mod u64.        (* uint64 a - b *)
+Definition archive_sig : bytes := [68; 79; 76; 84; 65; 82; 67].         (* "DOLTARC" *)
+(* a make() of this many bytes or more kills the process (makeslice: len out of range beyond 2^48,
+   "out of memory" below; the harness worker runs under RLIMIT_AS) *)
+Definition alloc_crash : N := 4294967296.
+(* between [alloc_unsure] and [alloc_crash] the outcome depends on the machine: the model abstains *)
+Definition alloc_unsure : N := 134217728.
+
+Record afooter := { af_ver : N; af_isz : N; af_nspans : N; af_chunks : N; af_meta : N; af_fsz : N }.
+
+(* loadFooter + buildArchiveFooter (archive_reader.go:419, :429) *)
+Definition load_footer (file : bytes) : res afooter :=
+  let n := blen file in
+  if n <? 220 then Err                                 (* ReadAt at a negative offset *)
+  else let buf := sub file (n - 220) 220 in
+       let ver := nth 212 buf 0 in
+       if negb (beq_bytes (sub buf 213 7) archive_sig) then Err       (* ErrInvalidFileSignature *)
+       else if 3 <? ver then Err                                        (* ErrInvalidFormatVersion; 0 passes *)
+       else Ok {| af_ver := ver;
+                  af_isz := if ver <? 3 then be (sub buf 4 4) else be (sub buf 0 8);
+                  af_nspans := be (sub buf 8 4); af_chunks := be (sub buf 12 4); af_meta := be (sub buf 16 4);
+                  af_fsz := n |}.
+
+Definition af_footer_size (f : afooter) : N := if af_ver f <? 3 then 216 else 220.
+(* totalIndexSpan().offset, uint64 arithmetic (archive_reader.go:89) *)
+Definition af_index_off (f : afooter) : N := sub64 (sub64 (sub64 (af_fsz f) (af_footer_size f)) (af_meta f)) (af_isz f).
+Definition af_data_len (f : afooter) : N := af_index_off f.              (* dataSpan().length: same expression *)
+
+(* io.NewSectionReader(reader, int64(off), int64(len)) read in full *)
+Definition read_section (file : bytes) (off len : N) : res bytes :=
+  if len =? 0 then Ok []
+  else if i63 <=? off then Err                          (* negative offset *)
+  else if blen file <? off + len then Err               (* EOF / unexpected EOF *)
+  else Ok (sub file off len).
+
+Record aindex := { ax_f : afooter; ax_spans : list N (* spanIndex, with the leading 0 *); ax_prefixes : list N;
+                   ax_refs : list (N * N); ax_suffixes : bytes }.
+
+Fixpoint pairs (l : list N) : list (N * N) :=
+  match l with a :: b :: r => (a, b) :: pairs r | _ => [] end.
+
+(* newInMemoryArchiveIndexReader (archive_reader.go:248): four sections read at offsets derived from
+   the footer; no field is checked against the file size, the index size or the checksums.
+   Panic = an allocation sized by a footer count that the process cannot satisfy. *)
+Definition open_archive (file : bytes) : res aindex :=
+  bind (load_footer file) (fun f =>
+    let ns := af_nspans f in let c := af_chunks f in
+    let o1 := af_index_off f in
+    let o2 := (o1 + 8 * ns) mod u64 in
+    let o3 := (o2 + 8 * c) mod u64 in
+    let o4 := (o3 + 8 * c) mod u64 in
+    if alloc_crash <=? 8 * (ns + 1) then Panic else
+    bind (read_section file o1 (8 * ns)) (fun sp =>
+    if alloc_crash <=? 8 * c then Panic else
+    bind (read_section file o2 (8 * c)) (fun pf =>
+    bind (read_section file o3 (8 * c)) (fun rf =>
+    if alloc_crash <=? 12 * c then Panic else
+    bind (read_section file o4 (12 * c)) (fun sf =>
+      Ok {| ax_f := f; ax_spans := 0 :: map be (chunks_of (N.to_nat ns) 8 sp);
+            ax_prefixes := map be (chunks_of (N.to_nat c) 8 pf);
+            ax_refs := pairs (map be (chunks_of (N.to_nat (2 * c)) 4 rf));
+            ax_suffixes := sf |}))))).
+
+(* prollyBinSearch (archive_reader.go:917): interpolation search, mirrored step by step, incl. the
+   two ways bits.Div64 panics (y = 0, y <= hi) and the index expression int(dU64)+lft *)
+Inductive sres := SIdx (i : N) | SPanic | SHang.
+
+Fixpoint psearch_loop (fuel : nat) (sl : list N) (target items lft rht lo hi : N) : sres :=
+  match fuel with
+  | O => SHang
+  | S f =>
+    if lft <? rht then
+      let vr := sub64 hi lo in
+      let ir := rht - lft - 1 in
+      let prod := sub64 target lo * ir in
+      if (vr =? 0) || (vr <=? prod / u64) then SPanic                 (* bits.Div64: divide error / overflow *)
+      else let q := prod / vr in
+           if i63 <=? q then SPanic                                     (* negative index *)
+           else let idx := q + lft in
+                if items <=? idx then SPanic                            (* slice[idx] *)
+                else if nth (N.to_nat idx) sl 0 <? target then
+                       let lft' := idx + 1 in
+                       if lft' <? items then
+                         let lo' := nth (N.to_nat lft') sl 0 in
+                         if target <=? lo' then SIdx lft' else psearch_loop f sl target items lft' rht lo' hi
+                       else psearch_loop f sl target items lft' rht lo hi
+                     else psearch_loop f sl target items lft idx lo (nth (N.to_nat idx) sl 0)
+    else SIdx lft
+  end.
+
+Definition psearch (sl : list N) (target : N) : sres :=
+  let items := N.of_nat (length sl) in
+  if items =? 0 then SIdx 0
+  else let lo := nth 0 sl 0 in let hi := nth (N.to_nat (items - 1)) sl 0 in
+       if hi <? target then SIdx items
+       else if target <=? lo then SIdx 0
+       else psearch_loop (S (length sl)) sl target items 0 items lo hi.
+
+Definition ax_suffix (a : aindex) (idx : N) : bytes := sub (ax_suffixes a) (12 * idx) 12.
+
+Fixpoint afind_loop (fuel : nat) (a : aindex) (h : bytes) (idx : N) : option N :=
+  match fuel with
+  | O => None
+  | S f => if (idx <? af_chunks (ax_f a)) && (nth (N.to_nat idx) (ax_prefixes a) 0 =? addr_prefix h) then
+             if beq_bytes (ax_suffix a idx) (addr_suffix h) then Some idx else afind_loop f a h (idx + 1)
+           else None
+  end.
+
+(* findIndex (archive_reader.go:474) *)
+Definition afind (a : aindex) (h : bytes) : res (option N) :=
+  match psearch (ax_prefixes a) (addr_prefix h) with
+  | SPanic | SHang => Panic
+  | SIdx pm => if af_chunks (ax_f a) <=? pm then Ok None
+               else Ok (afind_loop (N.to_nat (af_chunks (ax_f a))) a h pm)
+  end.
+
+Definition ahas (a : aindex) (h : bytes) : res bool :=
+  bind (afind a h) (fun m => Ok (match m with Some _ => true | None => false end)).
+
+(* getSpanIndex / getByteSpanByID (archive_reader.go:331, :663): out-of-range ids read as 0, the
+   length is an unchecked uint64 difference *)
+Definition span_index (a : aindex) (i : N) : N :=
+  if N.of_nat (length (ax_spans a)) <=? i then 0 else nth (N.to_nat i) (ax_spans a) 0.
+Definition span_by_id (a : aindex) (id : N) : N * N :=
+  if id =? 0 then (0, 0) else (span_index a (id - 1), sub64 (span_index a id) (span_index a (id - 1))).
+
+Inductive gres := GAbsent | GOk (comp : bytes) | GErr | GPanic | GAny.
+
+(* readByteSpan (archive_reader.go:565): make([]byte, length), then ReadAtWithStats, whose deferred
+   stats.FileBytesPerRead.Sample(len(p)) asserts len(p) > 0 (metrics/histogram.go:69) *)
+Definition read_span (file : bytes) (sp : N * N) : gres :=
+  let '(off, len) := sp in
+  if alloc_crash <=? len then GPanic                                   (* makeslice / out of memory *)
+  else if alloc_unsure <=? len then GAny
+  else if len =? 0 then GPanic                                          (* Sample(0): d.PanicIfTrue(v == 0) *)
+  else if (i63 <=? off) || (blen file <? off + len) then GErr
+  else GOk (sub file off len).
+
+(* archiveReader.get (archive_reader.go:496): index lookup, chunk ref, dictionary span, data span.
+   zstd (dictionary creation and decompression) is opaque: GAny once a dictionary span was read. *)
+Definition aget (file : bytes) (a : aindex) (h : bytes) : gres :=
+  match afind a h with
+  | Panic => GPanic
+  | Err => GErr
+  | Ok None => GAbsent
+  | Ok (Some idx) =>
+    let '(dict, data) := nth (N.to_nat idx) (ax_refs a) (0, 0) in
+    if negb (dict =? 0) then
+      match read_span file (span_by_id a dict) with
+      | GOk _ => GAny
+      | r => r
+      end
+    else
+      match read_span file (span_by_id a data) with
+      | GOk buf =>
+        if af_ver (ax_f a) <? 2 then GErr                               (* "dictionary is nil" *)
+        else match new_compressed_chunk buf with
+             | Ok comp => GOk comp
+             | _ => GErr
+             end
+      | r => r
+      end
+  end.
+
+(* archiveReader.iterate (archive_reader.go:692).  IAny: a dictionary span (zstd) or an allocation
+   the model abstains on was reached. *)
+Inductive ires := IOk (l : list (bytes * bytes)) | IErr | IPanic | IAny.
+
+Definition last_ref_with (refs : list (N * N)) (sel : N * N -> N) (id : N) : option N :=
+  fold_left (fun acc e => if sel (snd e) =? id then Some (fst e) else acc)
+            (combine (map N.of_nat (seq 0 (length refs))) refs) None.
+
+Fixpoint aiter_loop (fuel : nat) (file : bytes) (a : aindex) (limit counter pos : N)
+         (acc : list (bytes * bytes)) : ires :=
+  match fuel with
+  | O => IOk (rev acc)
+  | S f =>
+    if af_nspans (ax_f a) <? counter then IOk (rev acc)
+    else
+      let len := snd (span_by_id a counter) in
+      if i63 <=? len then IPanic                                        (* int(length) < 0: no growth, buf[:length] *)
+      else if alloc_crash <=? len then IPanic                           (* buffer doubling until the process dies *)
+      else if alloc_unsure <=? len then IAny
+      else
+        let avail := N.min limit (blen file) - pos in
+        if (0 <? len) && (avail <? len) then IErr                       (* "error reading archive file" *)
+        else
+          let refs := firstn (N.to_nat (af_chunks (ax_f a))) (ax_refs a) in
+          let is_dict := existsb (fun e => negb (fst e =? 0) && (fst e =? counter)) refs in
+          if is_dict then IAny                                          (* NewDecompBundle: zstd *)
+          else match last_ref_with refs snd counter with
+               | None => IPanic                                         (* "Reverse Index incomplete: ByteSpan ID not found" *)
+               | Some cid =>
+                 let '(dict, _) := nth (N.to_nat cid) (ax_refs a) (0, 0) in
+                 if negb (dict =? 0) then IPanic                        (* "Dictionary ID not found in loaded dictionaries" *)
+                 else if af_ver (ax_f a) <? 2 then IErr
+                 else match new_compressed_chunk (sub file pos len) with
+                      | Ok comp =>
+                        aiter_loop f file a limit (counter + 1) (pos + len)
+                          ((enc_be 8 (nth (N.to_nat cid) (ax_prefixes a) 0) ++ ax_suffix a cid, comp) :: acc)
+                      | _ => IErr
+                      end
+               end
+  end.
+
+Definition aiterate (file : bytes) (a : aindex) : ires :=
+  let dl := af_data_len (ax_f a) in
+  let limit := if i63 <=? dl then i63 - 1 else dl in
+  aiter_loop (S (N.to_nat (af_nspans (ax_f a)))) file a limit 1 0 [].
+
+(* =====================================================================
    2. journal records   (go/store/nbs/journal_record.go)
    ===================================================================== *)
 
